@@ -244,7 +244,7 @@ func genTree(r *rand.Rand, n int, mode string) *treeu.JNode {
 }
 
 func pickCap(r *rand.Rand, n int) int {
-	c := lib.Pick(r, []int{1, 2, 3, n - 1, n, n + 1, 1024, lib.Range(r, 1, n+2), n - 2, n / 2})
+	c := lib.Pick(r, []int{1, 2, 3, n - 1, n, n + 1, 1024, lib.Range(r, 1, n+2), n - 2, n / 2, n + 2, 2*n + 1})
 	if c < 1 {
 		c = 1
 	}
@@ -384,5 +384,5 @@ func enum(tier string) []Input {
 }
 
 func main() {
-	lib.Main(lib.Harness[Input]{Prop: "C04", Quick: 1000, Thorough: 16000, Gen: gen, Enum: enum, Run: run})
+	lib.Main(lib.Harness[Input]{Prop: "C04", Quick: 2000, Thorough: 16000, Gen: gen, Enum: enum, Run: run})
 }
